@@ -152,6 +152,7 @@ type State struct {
 	writes    map[string]map[string]bool
 	hypSeen   map[string]bool
 	frames    []*inlFrame
+	exempt    []string // key|base of arrays owned by monitors (never framed)
 }
 
 func (s *State) clone() *State {
@@ -190,6 +191,7 @@ func (s *State) clone() *State {
 		n.hypSeen[k] = v
 	}
 	n.frames = append([]*inlFrame(nil), s.frames...)
+	n.exempt = s.exempt
 	n.callN = make(map[string]int, len(s.callN))
 	for k, v := range s.callN {
 		n.callN[k] = v
